@@ -123,14 +123,14 @@ def redacts_fallback_rule(ctx, w, rule):
     ctx.floor("hand-written redaction event deserializers", n, 2)
 
 
-def tree_link_rule(ctx, w):
+def tree_link_rule(ctx, w, rule="C17.tree-links"):
     """The reviewed `expect`s of ruma_html::html (parent_and_index: "child should be in parent's children") rest on one invariant of the tree:
     a node's `parent` link is set exactly while it is in that parent's `children` list. The invariant is kept by pairing, which is decided
     here: a function that takes nodes out of a `children` vector also resets a `parent` link, and a function that puts a node into one also
     sets it. (html5ever calls reparent_children for misnested formatting elements; a stale link there panics in the next detach.)"""
-    rule = "C17.tree-links"
     ctx.rule(rule, "ruma_html::html: every function that removes from a Vec<NodeRef> of children (take / remove / clear / drain / pop ..) also clears an "
-                   "Option<Weak<Node>> parent link (take / replace / set), and every function that inserts into one (push / insert / append / extend) also writes a parent link")
+                   "Option<Weak<Node>> parent link (take / replace / set), and every function that inserts into one (push / insert / append / extend) also SETS one (replace / set), "
+                   "directly or in a callee of the module")
     if "ruma_html" not in w.crates:
         return
     REMOVE = {"take", "remove", "clear", "drain", "truncate", "pop", "swap_remove", "retain", "split_off", "replace"}
@@ -155,24 +155,28 @@ def tree_link_rule(ctx, w):
                     par.append(last)
         if not rem and not ins:
             continue
-        if not par:
-            # the link write may sit in a helper of the module (`fn set_parent(&self, ..)`): follow direct calls one level
-            for body in M.all_bodies(g):
-                for _, c in M.calls(body):
-                    cn = M.callee_name(c)
-                    if "ruma_html::html::" in cn:
-                        for h in w.fn_index.get(cn, []):
-                            for hb in (M.all_bodies(h) if "body" in h else []):
-                                for _, c2 in M.calls(hb):
-                                    fa2 = " ".join(c2.get("fnargs") or [])
-                                    if "Option<alloc::rc::Weak<ruma_html::html::Node>>" in fa2 and M.callee_name(c2).rsplit("::", 1)[-1] in ("take", "replace", "set", "swap"):
-                                        par.append("via " + cn.rsplit("::", 1)[-1])
+        # link writes in direct callees inside the module (`fn set_parent(&self, ..)`, `append_child`) count for the caller
+        via = []
+        for body in M.all_bodies(g):
+            for _, c in M.calls(body):
+                cn = M.callee_name(c)
+                if "ruma_html::html::" in cn:
+                    for h in w.fn_index.get(cn, []):
+                        for hb in (M.all_bodies(h) if "body" in h else []):
+                            for _, c2 in M.calls(hb):
+                                fa2 = " ".join(c2.get("fnargs") or [])
+                                if "Option<alloc::rc::Weak<ruma_html::html::Node>>" in fa2 and M.callee_name(c2).rsplit("::", 1)[-1] in ("take", "replace", "set", "swap"):
+                                    via.append(M.callee_name(c2).rsplit("::", 1)[-1])
         n += 1
         key = PC.key_path(g["path"])
-        ctx.check(bool(par), rule, f"{rule}:{key}", w.where(g),
-                  bad_msg=f"{g['path']} changes a children list ({sorted(set(rem + ins))}) without writing a parent link: a node keeps a parent whose children no longer "
-                          f"contain it (or the reverse), and the next detach()/insert_before_sibling() panics in parent_and_index ('child should be in parent\'s children') - "
-                          f"reachable from Html::parse on misnested formatting tags")
+        clears = [x for x in par + via if x in ("take", "replace", "set", "swap")]
+        sets = [x for x in par + via if x in ("replace", "set", "swap")]
+        good = (not rem or bool(clears)) and (not ins or bool(sets))
+        ctx.check(good, rule, f"{rule}:{key}", w.where(g),
+                  bad_msg=f"{g['path']} changes a children list (removes: {sorted(set(rem))}, inserts: {sorted(set(ins))}) without the matching parent-link write "
+                          f"(clears seen: {sorted(set(clears))}, sets seen: {sorted(set(sets))}): a node keeps a parent whose children no longer contain it, or sits in a children "
+                          f"list without a parent link - then detach() is a no-op and next_sibling() is None, so the sanitizer cannot remove or even visit it, or "
+                          f"parent_and_index panics ('child should be in parent\'s children'); reachable from Html::parse on misnested formatting tags")
     ctx.floor("functions of ruma_html::html that change a children list", n, 4)
 
 
